@@ -95,11 +95,25 @@ def run(ctx):
     bsig = lambda c: "bitset:%d:%s" % (c["size"], " ".join("%s(%s)" % (o["op"], o["a"] if o["op"] != "or" else o["other"]) for o in c["ops"]))
     vlib.validate_cases(ctx, "BitSetTrace", "BitSetTrace.cfg", bs, label="bitset", timeout=3000, sig=bsig, sigv=lambda c, rec, v: v + ":" + bsig(c), rerun=None,
                         input_keys=["size", "ops"], observed_keys=["obs", "crash"], nontrivial=lambda c: any(o["cap"] > 32 and len(o["bits"]) > 2 for o in c["obs"]))
+    # 5. interning of integer sequences and sparse sets (Containers.tla): every insertion sequence of <= 4 keys over a universe of keys that
+    # collide under the implementation's hash; sparse.Union (twice on one reuse buffer) and sparse.Builder on seeded inputs
+    r = ctx.tlc("Containers", "ContainersDesign.cfg", timeout=600, continue_=False, name="containers-design")
+    for v in r.violations:
+        raise vlib.Infra("design model Containers.tla violated (%s): a spec defect, not a verdict" % v["name"])
+    cc = ctx.path("containers.ndjson")
+    ctx.tlc("ContainersGen", "ContainersGen.cfg", workers=1, timeout=900, name="containersgen", env={"VERIF_OUT": cc})
+    co = ctx.path("containers.rec.ndjson")
+    ctx.vhrun(["containers-run", cc, "20000" if thorough else "3000", co])
+    csig = lambda c: "containers:%s:%s" % (c["k"], c["keys"] if c["k"] == "intern" else (c["sets1"], c["sets2"]) if c["k"] == "union" else c["rounds"])
+    vlib.validate_cases(ctx, "ContainersTrace", "ContainersTrace.cfg", co, label="containers", timeout=3000, sig=csig, sigv=lambda c, rec, v: v + ":" + csig(c), rerun=None,
+                        input_keys=["k", "keys", "sets1", "sets2", "rounds"], observed_keys=["crash", "rets", "mrets", "lens", "first", "second", "firstAfter", "auxClean", "inputsIntact", "built"],
+                        nontrivial=lambda c: len(set(c["rets"])) >= 3 or len(c["first"]) >= 3 or any(len(b) >= 2 for b in c["built"]))
     ctx.cov["exhaustive"] = True
     ctx.cov["rule"] = ("TLC enumerates all 1024 pairs of finite/co-finite sets over 0..3 and all API-constructible closure systems "
                        "with %s (nodes, max base element); vh records the real results; TLC validates each against Sem / least solution. "
                        "Random: seeded 4-7 node systems. Non-trivial: algebra pairs mixing a finite and a co-finite non-empty set; "
                        "closure systems with >=2 distinct node kinds and at least one edge (distinct by full system text). container.BitSet: seeded sequences of 12 operations "
-                       "(set/clear/get/setAll/clearAll/complement/or/grow/nextZero/cardinality) around the 32-bit word boundaries against BitSet.tla (sampled, not exhaustive)." % universes)
+                       "(set/clear/get/setAll/clearAll/complement/or/grow/nextZero/cardinality) around the 32-bit word boundaries against BitSet.tla (sampled, not exhaustive). "
+                       "IntSliceSet/IntSliceMap: all 4680 insertion sequences of <= 4 keys over 8 hash-colliding keys; sparse.Union / Builder: seeded inputs (Containers.tla)." % universes)
     ctx.assumptions += ["TLC and the Json/IOUtils community modules", "harness builds systems through the public Closure API only (intersection/complement nodes refer to earlier nodes)",
                         "sets are interpreted over a probe universe with one element beyond those mentioned"]
